@@ -12,6 +12,10 @@ use staking::msg::{BatchResponse, BatchesResponse, ConfigResponse, IBCQueueRespo
 use staking::state::ibc::PacketLifecycleStatus;
 use staking::state::UnstakeRequest;
 
+/// A page shorter than asked for, with more matching items behind it, is accepted only if it is at least this
+/// long (a contract may cap page sizes); a page that merely stops early is a violation of C17.
+pub const PAGE_CAP_MIN: usize = 10;
+
 fn status_of(p: &PacketLifecycleStatus) -> Option<PStatus> {
     match p {
         PacketLifecycleStatus::Sent => Some(PStatus::Sent),
@@ -229,6 +233,17 @@ impl Engine {
         let want: Vec<(u64, String, String, u128, Option<PStatus>)> =
             self.m.packets.values().map(|p| (p.seq, p.receiver.clone(), p.denom.clone(), p.amount, Some(p.status))).collect();
         self.chk(&["C07"], q == want, || format!("IbcQueue {:?}\n   model (from the IBC module's view) {:?}", q, want));
+        // C02 (c) with the refunds the contract itself has on record: a refund the contract does not know of can never
+        // be re-sent, so the balance then exceeds what the contract can account for
+        if !self.m.fees_unbacked {
+            let recorded: u128 = q.iter().filter(|p| p.2 == STAKED_DENOM && matches!(p.4, Some(PStatus::AckFailure) | Some(PStatus::TimedOut))).map(|p| p.3).sum();
+            let reported = self.ch.query::<StateResponse>(QueryMsg::State {}).map(|s| s.total_fees.u128()).unwrap_or(self.m.fees);
+            let unpaid = self.m.received_unpaid();
+            let bal = self.ch.balance(&contract, STAKED_DENOM);
+            self.chk(&["C02"], bal == unpaid + reported + recorded, || {
+                format!("contract holds {bal} staked asset but its own records account for unwithdrawn batches {unpaid} + fees {reported} + refunded transfers awaiting re-send {recorded}")
+            });
+        }
         let rq: Result<IBCReplyQueueResponse, _> = self.ch.query(QueryMsg::IbcReplyQueue { start_after: None, limit: Some(50) });
         self.chk(&["C07"], rq.as_ref().map(|r| r.ibc_queue.is_empty()).unwrap_or(false), || format!("IbcReplyQueue not empty between transactions: {:?}", rq));
         // ---- config
@@ -289,8 +304,9 @@ impl Engine {
                 match r {
                     Ok(r) => {
                         let got: Vec<u64> = r.batches.iter().map(|b| b.id).collect();
-                        // a page is a non-empty prefix (at most `limit` long) of the matching batches after the cursor
-                        let ok = got.len() <= *limit as usize && want.starts_with(&got) && (got.len() == (*limit as usize).min(want.len()) || (!got.is_empty() && got.len() < want.len()));
+                        // a page is the first min(limit, remaining) matching batches after the cursor; a shorter page that does not
+                        // exhaust them is tolerated only as a page-size cap (at least PAGE_CAP_MIN items)
+                        let ok = got.len() <= *limit as usize && want.starts_with(&got) && (got.len() == (*limit as usize).min(want.len()) || (got.len() >= PAGE_CAP_MIN && got.len() < want.len()));
                         self.chk(&["C17"], ok, || format!("{what}: got {:?}, full-scan reference {:?}", got, want));
                     }
                     Err(e) => self.chk(&["C17", "C16"], false, || format!("{what}: {e}")),
@@ -328,7 +344,7 @@ impl Engine {
                 match r {
                     Ok(r) => {
                         let got: Vec<u64> = r.ibc_queue.iter().map(|p| p.sequence).collect();
-                        let ok = got.len() <= *limit as usize && want.starts_with(&got) && (got.len() == (*limit as usize).min(want.len()) || (!got.is_empty() && got.len() < want.len()));
+                        let ok = got.len() <= *limit as usize && want.starts_with(&got) && (got.len() == (*limit as usize).min(want.len()) || (got.len() >= PAGE_CAP_MIN && got.len() < want.len()));
                         self.chk(&["C17"], ok, || format!("{what}: got {:?}, reference {:?}", got, want));
                     }
                     Err(e) => self.chk(&["C17", "C16"], false, || format!("{what}: {e}")),
